@@ -36,6 +36,40 @@ type Term struct {
 	I      *big.Int // value if IsInt
 	IsBool bool     // boolean literal
 	B      bool
+	// optional interval known to contain the value (executor-side analysis used
+	// only to skip wrap-around encodings that cannot trigger)
+	Lo, Hi *big.Int
+}
+
+// WithBounds returns a copy of t annotated with an interval.
+func WithBounds(t *Term, lo, hi *big.Int) *Term {
+	if t.IsInt {
+		return t
+	}
+	n := *t
+	n.Lo, n.Hi = lo, hi
+	return &n
+}
+
+func bounds(t *Term) (lo, hi *big.Int) {
+	if t.IsInt {
+		return t.I, t.I
+	}
+	return t.Lo, t.Hi
+}
+
+func addB(a, b *big.Int) *big.Int {
+	if a == nil || b == nil {
+		return nil
+	}
+	return new(big.Int).Add(a, b)
+}
+
+func subB(a, b *big.Int) *big.Int {
+	if a == nil || b == nil {
+		return nil
+	}
+	return new(big.Int).Sub(a, b)
 }
 
 func (t *Term) String() string { return t.S }
@@ -88,7 +122,11 @@ func Add(a, b *Term) *Term {
 	if b.IsInt && b.I.Sign() == 0 {
 		return a
 	}
-	return app(SInt, "+", a, b)
+	r := app(SInt, "+", a, b)
+	al, ah := bounds(a)
+	bl, bh := bounds(b)
+	r.Lo, r.Hi = addB(al, bl), addB(ah, bh)
+	return r
 }
 
 func Sub(a, b *Term) *Term {
@@ -101,7 +139,11 @@ func Sub(a, b *Term) *Term {
 	if a.S == b.S {
 		return IntLit(0)
 	}
-	return app(SInt, "-", a, b)
+	r := app(SInt, "-", a, b)
+	al, ah := bounds(a)
+	bl, bh := bounds(b)
+	r.Lo, r.Hi = subB(al, bh), subB(ah, bl)
+	return r
 }
 
 func Neg(a *Term) *Term {
@@ -124,7 +166,23 @@ func Mul(a, b *Term) *Term {
 	if b.IsInt && b.I.Cmp(big.NewInt(1)) == 0 {
 		return a
 	}
-	return app(SInt, "*", a, b)
+	r := app(SInt, "*", a, b)
+	if a.IsInt || b.IsInt {
+		c, x := a, b
+		if b.IsInt {
+			c, x = b, a
+		}
+		xl, xh := bounds(x)
+		if xl != nil && xh != nil {
+			p1 := new(big.Int).Mul(c.I, xl)
+			p2 := new(big.Int).Mul(c.I, xh)
+			if p1.Cmp(p2) > 0 {
+				p1, p2 = p2, p1
+			}
+			r.Lo, r.Hi = p1, p2
+		}
+	}
+	return r
 }
 
 func Eq(a, b *Term) *Term {
@@ -263,7 +321,26 @@ func Ite(c, a, b *Term) *Term {
 			return Not(c)
 		}
 	}
-	return app(a.Sort, "ite", c, a, b)
+	r := app(a.Sort, "ite", c, a, b)
+	if a.Sort == SInt {
+		al, ah := bounds(a)
+		bl, bh := bounds(b)
+		if al != nil && bl != nil {
+			if al.Cmp(bl) < 0 {
+				r.Lo = al
+			} else {
+				r.Lo = bl
+			}
+		}
+		if ah != nil && bh != nil {
+			if ah.Cmp(bh) > 0 {
+				r.Hi = ah
+			} else {
+				r.Hi = bh
+			}
+		}
+	}
+	return r
 }
 
 func Select(arr, i *Term) *Term { return app(SInt, "select", arr, i) }
